@@ -224,6 +224,22 @@ func errStr(err error) string {
 	return "err rej"
 }
 
+func otfW2(v onthefly.KernelValue) string {
+	var w onthefly.ByteBuilder
+	v.WriteTL2(&w, false, false, 0, nil)
+	return hx(w.Buf())
+}
+
+func otfW1b(ins pure.TypeInstance, v onthefly.KernelValue) string {
+	_, isUnion := ins.(*pure.TypeInstanceUnion)
+	if ins.Common().OriginTL2() || !(isUnion || ins.Common().TLTag() != 0) {
+		return "n/a"
+	}
+	var w onthefly.ByteBuilder
+	v.WriteTL1(&w, false, nil, false, 0, &onthefly.UIModel{})
+	return hx(w.Buf())
+}
+
 // line: codec.x1 <sid> <tyIdx> <tlname> <boxed01> <hex>   (same format as the generated-code driver)
 func otfHandle(k *pure.Kernel, all []pure.TypeInstance, line string) (res string) {
 	defer func() {
@@ -238,7 +254,25 @@ func otfHandle(k *pure.Kernel, all []pure.TypeInstance, line string) (res string
 		}
 		return "ok 0"
 	}
-	if len(f) != 6 || f[0] != "codec.x1" {
+	if len(f) == 5 && f[0] == "codec.r2" {
+		// codec.r2 <sid> <ty> <tlname> <tl2hex>: ReadTL2, answer `ok <consumed> w2=<re-written TL2> w1b=<TL1 boxed | n/a>`
+		ty, err := strconv.Atoi(f[2])
+		data, ok := unhex(f[4])
+		if err != nil || !ok || ty < 0 || ty >= len(all) {
+			return "bad-op"
+		}
+		ins := all[ty]
+		if !ins.Common().HasTL2() {
+			return "n/a"
+		}
+		v := onthefly.CreateValue(ins)
+		rest, err := v.ReadTL2(data, &onthefly.TLContext{})
+		if err != nil {
+			return errStr(err)
+		}
+		return fmt.Sprintf("ok %d w2=%s w1b=%s", len(data)-len(rest), otfW2(v), otfW1b(ins, v))
+	}
+	if len(f) != 6 || (f[0] != "codec.x1" && f[0] != "codec.x2") {
 		return "bad-op"
 	}
 	ty, err := strconv.Atoi(f[2])
@@ -247,12 +281,19 @@ func otfHandle(k *pure.Kernel, all []pure.TypeInstance, line string) (res string
 		return "bad-op"
 	}
 	ins := all[ty]
+	if f[0] == "codec.x2" && !ins.Common().HasTL2() {
+		return "n/a"
+	}
 	v := onthefly.CreateValue(ins)
 	ctx := &onthefly.TLContext{}
 	var rest []byte
 	rest, _, err = v.ReadTL1(data, ctx, f[4] != "1", nil)
 	if err != nil {
 		return errStr(err)
+	}
+	if f[0] == "codec.x2" {
+		// codec.x2 <sid> <ty> <tlname> <boxed01> <tl1hex>: ReadTL1, answer `ok w2=<TL2> w1b=<TL1 boxed>`
+		return fmt.Sprintf("ok w2=%s w1b=%s", otfW2(v), otfW1b(ins, v))
 	}
 	var sb strings.Builder
 	fmt.Fprintf(&sb, "ok %d", len(data)-len(rest))
